@@ -96,7 +96,7 @@ def generate(seed, tier):
     rng = core.stream(seed, "gen")
     swarm = core.stream(seed, "swarm")
     if swarm.random() < 0.25:
-        alphabet = swarm.choice([["a", "b", ""], ["a b", " a", "x\ty", "l1\nl2", "", "l1\r\nl2", "\r"], ["<&>", "ü€", "=1+1", "'q"], ["1", "2.50", "TRUE", "01067", "00", "\u0663\u0664", "007"]])
+        alphabet = swarm.choice([["a", "b", ""], ["a b", " a", "x\ty", "l1\nl2", "", "l1\r\nl2", "\r"], ["<&>", "ü€", "=1+1", "'q"], ["1", "2.50", "TRUE", "01067", "00", "\u0663\u0664", "007"], ["x" * 32767, "x" * 32766, "ab"]])
         table = [[rng.choice(alphabet) for _ in range(rng.randint(1, 5))] for _ in range(rng.randint(0, 5))]
         # how the rows reach the writer: one by one, as one batch, or as any mix of single rows and batches
         batches = None
